@@ -27,6 +27,10 @@ Definition run_clashes (n : nat) (atoms : list catom) : val :=
 (* all 32 option sets at once *)
 Definition run_clashes_all (atoms : list catom) : val := VL (map (fun n => run_clashes n atoms) (seq 0 32)).
 
+(* the report's running maxima per key (clashfinder.main): keys are pairs of numbers, sums exact rationals *)
+Definition run_group_max (l : list ((nat * nat) * Q)) : val :=
+  vlist (fun kv => VL [vnat (fst (fst kv)); vnat (snd (fst kv)); VZ (Qnum (Qred (snd kv))); VZ (Zpos (Qden (Qred (snd kv))))]) (group_max l).
+
 (* ---- annotation *)
 From RV Require Import Model.Annot.
 Definition mkres (model : Z) (chain : str) (number : Z) (icode : option str) (letter : str) (atoms : list (str * (Z * Z * Z))) : res3 :=
